@@ -21,7 +21,7 @@ COMMON_ASSUMPTIONS = [
 CACHE_RULE = "cache-level histories on the real %s driven one scheduling segment at a time by the baton scheduler (virtual clock, controllable cleanup ticker, recorded callbacks): after EVERY segment the result, the callbacks and a full snapshot (store entries with deadlines, expiry buckets, charges, used, max_cost, sketch rows, doorkeeper words, get-ring, buffer and queue lengths, metrics, closed flags) are compared with the Coq model; hash-map iteration orders and select! arms are reported by the implementation and checked for legality by the model; "
 PROPS = {
     'C01': {
-        'suites': [('policy', 600, 6000, ''), ('stress', 12, 150, '')],
+        'suites': [('policy', 600, 6000, ''), ('stress', 100, 1000, '')],
         'rule': "policy-level histories (adds with costs clustered around the remaining room, cost-changing updates, removes, update_max_cost up/down, clears) on the real LFUPolicy through the facade; state (used, key_costs, max_cost, metrics, sketch, doorkeeper) compared with the model after every step; non-trivial = the case entered the eviction loop at least once; distinct = distinct operation/observation sequences",
         'assumptions': COMMON_ASSUMPTIONS + ["costs are non-negative (the property's quantifier)"],
         'partial': "i64 boundary (D10) excluded by hypothesis; cache-level lifting (every cache step touches the policy only through these operations) is checked by the cache-level correspondence of C06",
@@ -63,19 +63,19 @@ PROPS = {
         'partial': "",
     },
     'C10': {
-        'suites': [('caches', 400, 4000, ''), ('cachesa', 200, 2000, ''), ('cachel', 200, 2000, '')],
+        'suites': [('caches', 400, 4000, ''), ('cachesa', 200, 2000, ''), ('cachel', 200, 2000, ''), ('stress', 100, 1000, '')],
         'rule': CACHE_RULE % "Cache and AsyncCache" + "three client threads, random interleavings at every yield point (between store update and buffer send, inside the processor's item handling, around the stop handshakes), buffer sizes {1, 2, 3, 16}, wait / clear / close racing; blocked clients are diagnosed from state: a client that never comes back is a MONITOR hit; monitor: what a client sent before a wait() that returned Ok is resident or handed back",
         'assumptions': COMMON_ASSUMPTIONS + ["weak fairness of select! for 'returns in finite time' (the theorem is: never stranded + the processor can always take the next item)"],
         'partial': "finite-time return needs fairness of the randomised select!, which is an assumption about crossbeam / futures",
     },
     'C11': {
-        'suites': [('caches', 400, 4000, ''), ('cachesa', 200, 2000, ''), ('cachel', 200, 2000, ''), ('cachecfg', 100, 1000, '')],
+        'suites': [('caches', 400, 4000, ''), ('cachesa', 200, 2000, ''), ('cachel', 200, 2000, ''), ('cachecfg', 100, 1000, ''), ('stress', 100, 1000, '')],
         'rule': CACHE_RULE % "Cache and AsyncCache" + "clear() issued with 0..buffer-size items buffered, select! arms as the implementation picks them, key re-use after clear with another TTL or none followed by ticks at the old bucket; monitors: values inserted before a completed clear() are not retrievable by lookups that began after it, empty cache at quiescence if nothing was inserted since",
         'assumptions': COMMON_ASSUMPTIONS,
         'partial': "",
     },
     'C12': {
-        'suites': [('caches', 400, 4000, ''), ('cachesa', 200, 2000, ''), ('cachel', 300, 3000, ''), ('cachecfg', 100, 1000, ''), ('defaults', 1, 1, '')],
+        'suites': [('caches', 400, 4000, ''), ('cachesa', 200, 2000, ''), ('cachel', 300, 3000, ''), ('cachecfg', 100, 1000, ''), ('defaults', 1, 1, ''), ('stress', 100, 1000, '')],
         'rule': CACHE_RULE % "Cache and AsyncCache" + "close() racing other operations and other close() calls; monitors: after close() returned Ok every operation that begins is inert and leaves the snapshot unchanged, both workers have left their loops, no client is stuck",
         'assumptions': COMMON_ASSUMPTIONS,
         'partial': "async flavour: close() returns once the stop message is buffered; that the processor then takes it needs fairness of select! (the theorem is: exited or the stop message is pending); OS thread exit and the exit of workers when every handle is dropped without close() are runtime behaviour (observed by the harness: suite defaults drops every handle of both flavours without close() and waits for both workers' exit notes), not theorems",
@@ -93,7 +93,7 @@ PROPS = {
         'partial': "determinism of DefaultKeyBuilder is a test of an unmodelled function",
     },
     'C06': {
-        'suites': [('caches', 500, 5000, ''), ('cachesa', 250, 2500, ''), ('cachet', 150, 1500, ''), ('stress', 12, 150, '')],
+        'suites': [('caches', 500, 5000, ''), ('cachesa', 250, 2500, ''), ('cachet', 150, 1500, ''), ('stress', 100, 1000, '')],
         'rule': CACHE_RULE % "Cache and AsyncCache" + "three client threads, random interleavings at every yield point (between policy.add and store.try_insert, before each victim, between policy.remove and store.try_remove of a Delete and of a sweep, inside clear), evictions, rejections, sweeps, clears; snapshot equality after every segment checks both sides of the agreement; monitor: at every quiescent point resident keys = charged keys; the corpus replays known finding D9 (index collision)",
         'assumptions': COMMON_ASSUMPTIONS + ["keys are told apart by their index hash (all conflict hashes 0): with colliding keys the statement is false (known finding D9, machine-checked witness C06_collision_refuted)", "no remove reported an error (a Delete lost to a full insert buffer): the property's own exclusion"],
         'partial': "",
@@ -105,13 +105,13 @@ PROPS = {
         'partial': "'any positive cleanup interval': the ticker is a label in the model and a controllable channel in the cache suites; the real timers are exercised by the suite ticker for two intervals only (a measurement with loose bounds, not a theorem); memory exhaustion for huge num_counters is outside the model",
     },
     'C15': {
-        'suites': [('cachet', 300, 3000, ''), ('caches', 300, 3000, ''), ('cachesa', 150, 1500, ''), ('tlfu', 100, 1000, ''), ('stress', 12, 150, '')],
+        'suites': [('cachet', 300, 3000, ''), ('caches', 300, 3000, ''), ('cachesa', 150, 1500, ''), ('tlfu', 100, 1000, ''), ('stress', 100, 1000, '')],
         'rule': CACHE_RULE % "Cache and AsyncCache" + "buffer_items drawn from {0, 1, 2, 3, 64} so that flushes happen every lookup, every few lookups, or never; lookups of resident, absent, expired and removed keys; the policy worker scheduled late so that the bounded(3) queue fills and batches are dropped, and after close; the pending batch (get-ring), the queue length, gets_kept / gets_dropped and the sketch rows / doorkeeper words are part of every compared snapshot; monitor: gets_kept + gets_dropped + pending = lookups made (quiescent profiles)",
         'assumptions': COMMON_ASSUMPTIONS + ["one ring stripe: the sync ring is a pool of RingStripe objects (object-pool crate) and the async one a single mutex-protected stripe; the harness runs clients one segment at a time, so one stripe is in use (which pool slot a thread gets is runtime behaviour)", "key hashes are u64"],
         'partial': "which stripe of the pool a concurrent client obtains is not modelled (each stripe obeys the same theorems; the accounting theorem is per stripe)",
     },
     'C17': {
-        'suites': [('cachet', 400, 4000, ''), ('caches', 300, 3000, ''), ('cachesa', 150, 1500, ''), ('cachecfg', 100, 1000, ''), ('policy', 200, 2000, ''), ('stress', 12, 150, '')],
+        'suites': [('cachet', 400, 4000, ''), ('caches', 300, 3000, ''), ('cachesa', 150, 1500, ''), ('cachecfg', 100, 1000, ''), ('policy', 200, 2000, ''), ('stress', 100, 1000, '')],
         'rule': CACHE_RULE % "Cache and AsyncCache" + "all eleven counters and the life-expectancy histogram (count, sum, min, max, every bucket) are part of every compared snapshot; cost-decreasing updates (two's-complement CostAdd), evictions, rejections, sweeps, removes, dropped inserts (buffer sizes 1-3), clear; monitors at quiescence: hits + misses = lookups, keys_added - keys_evicted = charged entries, cost_added - cost_evicted = used (wrapping), sets_dropped = inserts of non-resident keys that returned false, histogram count = sum of buckets = evictions of tracked entries since the last clear; the corpus replays D11 (fixed)",
         'assumptions': COMMON_ASSUMPTIONS + ["counters are wrapping u64s: the conservation theorems are equalities modulo 2^64", "no single cost decrease exceeds 2^64 (DeltaOk; it cannot for i64 costs whose difference does not overflow, D10)", "fewer than num_to_keep = 100000 tracked keys (the pruning of start_ts iterates a HashMap and is not modelled)"],
         'partial': "ratio() = hits / (hits + misses) is f64 arithmetic over the two modelled counters: computed and compared by the harness (suite cachet), not a Coq statement; striping of each counter over 256 atomics is abstracted to its sum (stripe index (hash % 25) * 10 < 256)",
@@ -129,7 +129,7 @@ PROPS = {
         'partial': "'never a value written before the latest remove(k) that had taken effect' is proved in two halves — remove() takes the entry out in its first step, and a resident value is only ever replaced by a later client write to that key — plus the clear() theorem of C11; the exact-last-value clause at quiescence is decided by the oracle monitor on the implementation and the state-by-state correspondence, its refinement theorem is C04's",
     },
     'C08': {
-        'suites': [('caches', 400, 4000, ''), ('cachel', 400, 4000, ''), ('cachesa', 200, 2000, ''), ('cachet', 150, 1500, ''), ('stress', 12, 150, '')],
+        'suites': [('caches', 400, 4000, ''), ('cachel', 400, 4000, ''), ('cachesa', 200, 2000, ''), ('cachet', 150, 1500, ''), ('stress', 100, 1000, '')],
         'rule': CACHE_RULE % "Cache and AsyncCache" + "every write carries a unique value; updates racing evictions, removes racing admissions, sweeps, rejections, validator vetoes, dropped inserts; suite cachel is lifecycle-heavy (half inserts, the rest wait / clear / close / remove from three clients, both flavours) so that inserts straddle the clear and the stop handshake of close(); callbacks are recorded and compared step by step; monitors: a value handed to callbacks twice, an accepted value neither resident nor handed back nor dropped by clear / overwritten in place (at quiescence), a lookup returning a value after it was handed back; the corpus replays known finding D9 (index collision: an admitted value silently declined by the store)",
         'assumptions': COMMON_ASSUMPTIONS + ["keys are told apart by their index hash (every conflict hash 0): with colliding keys the statement is false (known finding D9, machine-checked witness C08_collision_refuted)", "a get_mut write replaces the value in place: the overwritten value is dropped by the assignment, not by the cache (counted under 'lost', like the values clear() drops)"],
         'partial': "",
